@@ -2637,6 +2637,61 @@ theorem canResume_sound (c : Cache) (seq : Nat) (pos w : Int) (h : Inv c) (hw : 
       rw [specCount_abs seq _ _ c.cells c.rows h.len]
       omega
 
+/-! ### an approved resume is shown a complete window -/
+
+/-- a removal to the end keeps every entry below the cut -/
+theorem mem_abs_remove_inf (c : Cache) (seq : Nat) (pos : Int) (hpb : PosBound c.cells) (e : Entry)
+    (he : e ∈ abs c) (hlt : e.pos < pos) : e ∈ abs (Causal.remove c seq pos maxInt32).1 := by
+  obtain ⟨h1, h2, _⟩ := remove_inf c seq pos hpb
+  unfold abs at he ⊢
+  rw [h1, h2]
+  obtain ⟨⟨x, r⟩, hxr, hent⟩ := List.mem_filterMap.mp he
+  have hxpos : x.pos = e.pos := by
+    unfold entryOf at hent
+    split at hent
+    · cases hent
+    · cases hent; rfl
+  have hsame : rmInf seq pos x = x := by
+    unfold rmInf
+    rw [if_neg]
+    intro hh
+    omega
+  refine List.mem_filterMap.mpr ⟨(x, r), ?_, hent⟩
+  rw [List.zip_map_left]
+  refine List.mem_map.mpr ⟨(x, r), hxr, ?_⟩
+  simp [Prod.map, hsame]
+
+/-- **An approved resume is shown a complete window** (repaired tree).  If a sliding-window cache approves
+    `CanResume(seq, pos)`, the caller cuts the sequence back with `Remove(seq, pos, MaxInt32)` and the next
+    accepted batch contains the token `(seq, pos)`, then for every position of that token's window below it —
+    `max 0 (pos − W) ≤ p < pos` — the token is shown an entry at position `p`: the resumed token attends to a
+    complete window (this is what F15b violated). -/
+theorem approved_resume_sees_complete_window (c : Cache) (seq : Nat) (pos w : Int) (h : Inv c)
+    (hw : c.window = some w) (hfix : c.v.fixDefrag = true) (hfr : c.v.fixResume = true) (hr : RowsFresh c)
+    (hpb : PosBound c.cells) (hnd : (seqPositions (abs c) seq).Nodup) (hres : canResume c seq pos = true)
+    (b : List Tok) (ids : List Nat) (hids : ids.length = b.length) (ht : (⟨seq, pos⟩ : Tok) ∈ b)
+    (hok : (startForward (removeV c seq pos maxInt32).1 b).2 = .ok) (p : Int) (h1 : max 0 (pos - w) ≤ p) (h2 : p < pos) :
+    ∃ k ∈ (exposedEntries (put (startForward (removeV c seq pos maxInt32).1 b).1 ids) ⟨seq, pos⟩).map key, k.1 = p := by
+  obtain ⟨e, he, hes, hep⟩ := canResume_sound c seq pos w h hw hfr hnd hres p h1 h2
+  have hrv : removeV c seq pos maxInt32 = Causal.remove c seq pos maxInt32 := removeV_inf c seq pos hpb
+  rw [hrv] at hok ⊢
+  have he1 : e ∈ abs (Causal.remove c seq pos maxInt32).1 := mem_abs_remove_inf c seq pos hpb e he (by omega)
+  have hf := remove_fields c seq pos maxInt32
+  have hinv1 := remove_inv c seq pos maxInt32 h
+  have hr1 : RowsFresh (Causal.remove c seq pos maxInt32).1 := rowsFresh_of c _ hr hf.2.2.1 hf.2.2.2
+  have hperm := forward_exposes_stored_history_defrag (Causal.remove c seq pos maxInt32).1 b ids hinv1 hids
+    (by rw [hf.1]; exact hfix) hr1 hok ⟨seq, pos⟩ ht
+  refine ⟨key e, hperm.mem_iff.mpr ?_, hep⟩
+  apply List.mem_map.mpr
+  refine ⟨e, ?_, rfl⟩
+  rw [hf.2.1, hw]
+  simp only [visible, KV.store, List.filter_append, List.mem_append, List.mem_filter]
+  left
+  refine ⟨he1, ?_⟩
+  have h3 : ¬ e.pos > pos := by omega
+  have h4 : ¬ e.pos < pos - w := by omega
+  simp [vis, inWindow, hes, h3, h4]
+
 /-! ### no sequence holds a position twice, along histories that keep the contract -/
 
 def NodupPos (s : Spec) : Prop := ∀ q, (seqPositions s q).Nodup
@@ -3114,6 +3169,16 @@ theorem canResume_contract_nonvacuous :
       .cp 0 1 4, .rm 1 3 maxInt32, .rm 0 4 maxInt32]
     ContractRun (some 2) c0 [] ops ∧ canResume (ops.foldl stepH c0) 0 4 = true ∧
     canResume (ops.foldl stepH c0) 1 3 = false := by decide
+
+/-- non-vacuity of `approved_resume_sees_complete_window`: window 2, positions 0..4 stored one by one; resuming at 4
+    is approved, positions are bounded and distinct, and the batch `(0,4)` is accepted after the cut -/
+example :
+    let c := fwd (fwd (fwd (fwd (fwd (Causal.init { fixDefrag := true, fixResume := true } (some 2) 1 16 4 1 1 true)
+      [(⟨0, 0⟩, 1)]) [(⟨0, 1⟩, 2)]) [(⟨0, 2⟩, 3)]) [(⟨0, 3⟩, 4)]) [(⟨0, 4⟩, 5)]
+    canResume c 0 4 = true ∧ (seqPositions (abs c) 0).Nodup ∧ (∀ x ∈ c.cells, ∀ s ∈ x.seqs, x.pos < maxInt32) ∧
+    (startForward (removeV c 0 4 maxInt32).1 [⟨0, 4⟩]).2 = .ok ∧
+    ((exposedEntries (put (startForward (removeV c 0 4 maxInt32).1 [⟨0, 4⟩]).1 [9]) ⟨0, 4⟩).map key)
+      = [(3, 4, 0), (4, 9, 0), (2, 3, 0)] := by decide
 
 /-- the cache's answers along a history -/
 def acceptTrace : Cache → List HOp → List Bool
